@@ -729,7 +729,8 @@ K_LEAK = "parse-authored:nexus|interleave-flag-not-reset-between-blocks"
 
 
 def nexus_involved(fmt, info):
-    return fmt == "nexus" or info.get("from") == "nexus" or "nexus" in (info.get("chain") or ())
+    return (fmt == "nexus" or info.get("from") == "nexus" or "nexus" in (info.get("chain") or ())
+            or info.get("first") == "nexus")
 
 
 def is_parse_error(exc):
@@ -780,7 +781,7 @@ def classify_read_error(fmt, exc, src_model, text, info):
         return k
     if phylip_il_ns_signature(fmt, info) and is_parse_error(exc):
         return K_PHY_IL_NS
-    if fmt == "nexus" and info.get("decor_unbalanced"):
+    if nexus_involved(fmt, info) and info.get("decor_unbalanced"):
         return K_BRACKET
     if ";" in labels and nexus_involved(fmt, info) and is_parse_error(exc):
         return K_SEMI
@@ -809,7 +810,7 @@ def judge_models(ctx, op, fmt, dtype, alphabet, src_model, got, S, info, text):
     if k is not None:
         ctx.violation(k, "matrix read back from %s differs (%s)" % (fmt, diff[0]), detail)
         return False
-    if fmt == "nexus" and info.get("decor_unbalanced"):
+    if nexus_involved(fmt, info) and info.get("decor_unbalanced"):
         ctx.violation(K_BRACKET, "an annotation / comment value with unbalanced square brackets is written inside a NEXUS "
                       "comment as it is (%s)" % diff[0], detail)
         return False
@@ -984,7 +985,7 @@ def read_matrix(ctx, dtype, text, fmt, rkw, op, src_model, info, read_as=None, t
                           "DataSet.read() of the same document twice gave two different matrices", {"info": info, "diff": diff[2]})
             return None
         ms = ms[:1]
-    if len(ms) != 1 and fmt == "nexus" and info.get("decor_unbalanced"):
+    if len(ms) != 1 and nexus_involved(fmt, info) and info.get("decor_unbalanced"):
         ctx.violation(K_BRACKET, "an annotation / comment value with unbalanced square brackets is written inside a NEXUS "
                       "comment as it is: %d matrices read" % len(ms), {"info": info, "text": text[:1200]})
         return None
@@ -1166,7 +1167,7 @@ def roundtrip(ctx, rng, S, m, sa, src_model, dtype, alphabet, fmt, variant, op="
             ctx.violation("%s:%s|reader-namespace|matrix-not-attached-to-the-given-namespace" % (op, fmt),
                           "get(..., taxon_namespace=ns) returned a matrix over another namespace", {"info": info})
             ok = False
-        elif ns_after != want_ns and fmt == "nexus" and info.get("decor_unbalanced"):
+        elif ns_after != want_ns and nexus_involved(fmt, info) and info.get("decor_unbalanced"):
             ctx.violation(K_BRACKET, "an annotation / comment value with unbalanced square brackets is written inside a NEXUS "
                           "comment as it is: the rest of it is read as taxon labels", {"info": info, "text": text[:800]})
             ok = False
